@@ -5,6 +5,7 @@ import (
 	"context"
 	"encoding/binary"
 	"encoding/hex"
+	"encoding/json"
 	"errors"
 	"fmt"
 	"hash/crc64"
@@ -32,6 +33,8 @@ type engineImpl struct {
 
 	dbf, jf, wf, sf *os.File
 	client          *fakeClient
+
+	held *litefs.GuardSet // internal write lock held by the `whold` op
 
 	// crash window
 	crashing   bool
@@ -563,6 +566,37 @@ func (m *engineImpl) Do(line string) string {
 		tctx, cancel := context.WithTimeout(ctx, 150*time.Millisecond)
 		defer cancel()
 		return m.withExit(errStr(m.db.Import(tctx, bytes.NewReader(data))))
+	case "locks": // state of the twelve locks as the store's expvar reports it
+		if !m.need() {
+			return "bad-op"
+		}
+		var v struct {
+			DBs map[string]struct {
+				Locks map[string]string `json:"locks"`
+			} `json:"dbs"`
+		}
+		if err := json.Unmarshal([]byte(m.store.Expvar().String()), &v); err != nil {
+			return "err"
+		}
+		l := v.DBs["db"].Locks
+		var parts []string
+		for _, k := range []string{"pending", "reserved", "shared", "write", "ckpt", "recover", "read0", "read1", "read2", "read3", "read4", "dms"} {
+			parts = append(parts, k+"="+l[k])
+		}
+		return strings.Join(parts, " ")
+	case "whold": // LiteFS takes its internal write lock and keeps it (apply / checkpoint / import / halt in progress)
+		if !m.need() || m.held != nil {
+			return "bad-op"
+		}
+		m.held = m.db.TryAcquireWriteLock()
+		return fmt.Sprint(m.held != nil)
+	case "wrelease":
+		if !m.need() || m.held == nil {
+			return "bad-op"
+		}
+		m.held.Unlock()
+		m.held = nil
+		return "ok"
 	case "stray": // stray <n>: leave n temporary files next to the newest transaction file (a crashed writer)
 		if len(f) != 2 || !m.need() {
 			return "bad-op"
